@@ -483,12 +483,14 @@ class BodyPartReader:
             line = self._unread.popleft()
         else:
             line = await self._content.readline()
-            if not line:
-                # The stream ended without a closing boundary: there is
-                # nothing left to read, say so instead of returning b""
-                # forever with at_eof() still False.
-                self._at_eof = True
-                return b""
+
+        if not line:
+            # The stream ended without a closing boundary (the empty line
+            # may also be the look-ahead of the previous call): there is
+            # nothing left to read, say so instead of returning b"" forever
+            # with at_eof() still False.
+            self._at_eof = True
+            return b""
 
         if line.startswith(self._boundary):
             # the very last boundary may not come with \r\n,
